@@ -5,6 +5,7 @@ import DefraModel.Proofs.CrdtFolds
 import DefraModel.Proofs.CrdtWalk
 import DefraModel.Proofs.CrdtIsMerged
 import DefraModel.Proofs.CrdtMergeDocRefine
+import DefraModel.Proofs.CrdtMergeFull
 namespace Defra.Props.C02
 open Defra Defra.Crdt
 
@@ -136,8 +137,72 @@ theorem merge_applies_exactly_the_unmerged_ancestors_once (cx : Ctx) (hwf : wfCh
   · intro t; rw [hheads]; exact h5 t
   · rw [hheads]; exact h4
 
+/-- the blocks one delivery processes: the commit and its not yet merged ancestors (parents first), each followed by
+    the stored blocks it links -/
+def deliverySeq (cx : Ctx) (r : Replica) (c : Block) : List Block :=
+  flatSeq cx.blocks
+    (sortByHeight (loadComposites cx.blocks (r.doc c.doc).heads (cx.blocks.length + 1) c.id ([], [])).1)
+
+/-- the blocks one delivery applies: of `deliverySeq`, those not merged before the delivery, first occurrences (equal
+    field blocks are one content-addressed block and may be linked by several composites) -/
+def appliedBlocks (cx : Ctx) (r : Replica) (c : Block) : List Block :=
+  appliedSeq cx.blocks (r.doc c.doc) (deliverySeq cx r c)
+
+/-- the applied blocks are pairwise distinct and are exactly the processed blocks that were not merged before -/
+theorem appliedBlocks_nodup (cx : Ctx) (r : Replica) (c : Block) : ((appliedBlocks cx r c).map (·.id)).Nodup :=
+  foldl_addFirst_nodup cx.blocks (r.doc c.doc) (deliverySeq cx r c) [] (by simp)
+
+theorem appliedBlocks_sound (cx : Ctx) (r : Replica) (c : Block) (x : Block) (h : x ∈ appliedBlocks cx r c) :
+    x ∈ deliverySeq cx r c ∧ unmergedAt cx.blocks (r.doc c.doc) x = true := by
+  rcases foldl_addFirst_mem cx.blocks (r.doc c.doc) (deliverySeq cx r c) [] x h with h | h
+  · cases h
+  · exact h
+
+theorem appliedBlocks_complete (cx : Ctx) (r : Replica) (c : Block) (x : Block) (hx : x ∈ deliverySeq cx r c)
+    (hu : unmergedAt cx.blocks (r.doc c.doc) x = true) : ∃ y ∈ appliedBlocks cx r c, y.id = x.id :=
+  foldl_addFirst_has cx.blocks (r.doc c.doc) x.id (deliverySeq cx r c) [] (Or.inr ⟨x, hx, rfl, hu⟩)
+
+/-- **One delivered commit, end to end, the whole document.** For `mergeDoc` on a store passing `wfCheck3` and a
+    document state passing `kinvCheck` and `linkInvCheck` (all three evaluated by `drv crdt` on the stores and states
+    of the run): every head set — the composite one and each field's — afterwards reaches exactly what it reached
+    before plus the processed blocks of its kind; and the document's values (delete marker, every register, every
+    counter) are the old values with the deltas of `appliedBlocks` applied: exactly the processed blocks that were not
+    merged before, each once (`appliedBlocks_nodup`, `_sound`, `_complete`). -/
+theorem merge_end_to_end_whole_document (cx : Ctx) (hwf : wfCheck3 cx.blocks = true)
+    (hknown : ∀ l, (cx.blocks.get? l).isSome = true → cx.known l = true)
+    (r : Replica) (c : Block) (hc : cx.blocks.get? c.id = some c) (hck : c.kind = .comp)
+    (hk : kinvCheck cx.blocks (r.doc c.doc) = true) (hli : linkInvCheck cx.blocks (r.doc c.doc) = true) :
+    (∀ k t, Reach cx.blocks (headsOf ((mergeDoc cx r c).doc c.doc) k) t ↔
+      (Reach cx.blocks (headsOf (r.doc c.doc) k) t ∨ ∃ b ∈ deliverySeq cx r c, b.id = t ∧ b.kind = k)) ∧
+    ((mergeDoc cx r c).doc c.doc).vals = (appliedBlocks cx r c).foldl applyDelta (r.doc c.doc).vals ∧
+    KInv cx.blocks ((mergeDoc cx r c).doc c.doc) := by
+  have swf := wfCheck3_sound cx.blocks hwf
+  obtain ⟨_, h3, h4, h5⟩ := mergeDoc_full cx swf hknown r c hc hck
+    (kinvCheck_sound _ _ hk) (linkInvCheck_sound _ swf.base2.base.wf _ hli)
+  exact ⟨h4, h5, h3⟩
+
+/-- **Nothing lost, nothing doubled, for counters.** After a delivery a counter equals its value before plus the
+    increments of the applied blocks — one term per block, the blocks pairwise distinct and exactly the processed ones
+    that were not merged before. -/
+theorem counter_gains_each_new_increment_once (cx : Ctx) (hwf : wfCheck3 cx.blocks = true)
+    (hknown : ∀ l, (cx.blocks.get? l).isSome = true → cx.known l = true)
+    (r : Replica) (c : Block) (hc : cx.blocks.get? c.id = some c) (hck : c.kind = .comp)
+    (hk : kinvCheck cx.blocks (r.doc c.doc) = true) (hli : linkInvCheck cx.blocks (r.doc c.doc) = true) (f : String) :
+    ((((mergeDoc cx r c).doc c.doc).vals).ctr f).getD 0 =
+      (((r.doc c.doc).vals).ctr f).getD 0 + ((appliedBlocks cx r c).map (ctrOf f)).sum := by
+  rw [(merge_end_to_end_whole_document cx hwf hknown r c hc hck hk hli).2.1]
+  exact foldl_ctr _ _ f
+
 /-- the hypotheses are met by a concrete store, and the walk applies `3, 4` on top of heads `[2]` -/
 example : wfCheck diamondStore = true ∧ headsCheck diamondStore [2] = true := by decide
+
+/-- a store with field blocks: two commits of one document, each linking an increment of `points` -/
+def counterStore : Blocks :=
+  [⟨1, .comp, "d", 1, [], [2], .comp false⟩, ⟨2, .field "points", "d", 1, [], [], .ctr 1⟩,
+   ⟨3, .comp, "d", 2, [1], [4], .comp false⟩, ⟨4, .field "points", "d", 2, [2], [], .ctr 10⟩]
+
+example : wfCheck3 counterStore = true ∧ kinvCheck counterStore {} = true ∧ linkInvCheck counterStore {} = true := by
+  decide
 
 /-! non-vacuity -/
 def inc1 : Block := ⟨2, .field "points", "d", 1, [], [], .ctr 1⟩
